@@ -31,20 +31,18 @@ namespace PsdVerif.Walker
 open PsdVerif PsdVerif.Codec
 
 namespace Spec
-def k (s : String) : B := s.toUTF8.toList
-
+/-- byte strings are spelled out (ASCII codes) so that `decide` can compare them -/
 def adobeKeys : List B :=
-  [k "LMsk", k "Lr16", k "Lr32", k "Layr", k "Mt16", k "Mt32", k "Mtrn", k "Alph", k "FMsk", k "lnk2", k "FEid",
-   k "FXid", k "PxSD"]
-def observedKeys : List B := [k "cinf", k "lnkE", k "pths"]
+  [/- LMsk -/ [76, 77, 115, 107], /- Lr16 -/ [76, 114, 49, 54], /- Lr32 -/ [76, 114, 51, 50], /- Layr -/ [76, 97, 121, 114], /- Mt16 -/ [77, 116, 49, 54], /- Mt32 -/ [77, 116, 51, 50], /- Mtrn -/ [77, 116, 114, 110], /- Alph -/ [65, 108, 112, 104], /- FMsk -/ [70, 77, 115, 107], /- lnk2 -/ [108, 110, 107, 50], /- FEid -/ [70, 69, 105, 100], /- FXid -/ [70, 88, 105, 100], /- PxSD -/ [80, 120, 83, 68]]
+def observedKeys : List B := [/- cinf -/ [99, 105, 110, 102], /- lnkE -/ [108, 110, 107, 69], /- pths -/ [112, 116, 104, 115]]
 def psbEightByteKeys : List B := adobeKeys ++ observedKeys
 /-- keys psd-tools treats as 8-byte keys without support in the specification or in a fixture -/
-def unconfirmedKeys : List B := [k "FELS", k "artd", k "extd", k "extn", k "lnk3"]
+def unconfirmedKeys : List B := [/- FELS -/ [70, 69, 76, 83], /- artd -/ [97, 114, 116, 100], /- extd -/ [101, 120, 116, 100], /- extn -/ [101, 120, 116, 110], /- lnk3 -/ [108, 110, 107, 51]]
 
-def headerSignature : B := k "8BPS"
-def resourceSignatures : List B := [k "8BIM", k "MeSa", k "AgHg", k "PHUT", k "DCSR"]
-def blockSignatures : List B := [k "8BIM", k "8B64"]
-def layerSignature : B := k "8BIM"
+def headerSignature : B := /- 8BPS -/ [56, 66, 80, 83]
+def resourceSignatures : List B := [/- 8BIM -/ [56, 66, 73, 77], /- MeSa -/ [77, 101, 83, 97], /- AgHg -/ [65, 103, 72, 103], /- PHUT -/ [80, 72, 85, 84], /- DCSR -/ [68, 67, 83, 82]]
+def blockSignatures : List B := [/- 8BIM -/ [56, 66, 73, 77], /- 8B64 -/ [56, 66, 54, 52]]
+def layerSignature : B := /- 8BIM -/ [56, 66, 73, 77]
 end Spec
 
 structure Region where
